@@ -5,7 +5,7 @@ src, name, caught, missed = sys.argv[1:5]
 note = sys.argv[5] if len(sys.argv) > 5 else ""
 src = pathlib.Path(src); dst = pathlib.Path("/verif/seeded") / name
 if dst.exists(): shutil.rmtree(dst)
-shutil.copytree(src, dst, ignore=shutil.ignore_patterns("deps", "__pycache__", "*.log", "out*", "build*", "gen*", "*.o", "*.bin"))
+shutil.copytree(src, dst, ignore=shutil.ignore_patterns("deps", "tree", "__pycache__", "*.log", "out*", "build*", "gen*", "*.o", "*.bin"))
 for p in list(dst.rglob("*")):
     if p.is_file() and p.stat().st_size > 300_000: p.unlink()
 m = json.loads((dst / "meta.json").read_text())
